@@ -95,6 +95,20 @@ class IASolverBaseClass:  # pylint: disable=R0902
         self._rs = np.random.RandomState()
         # xxxxxxxxxxxxxxxxxxxxxxxxxxxxxxxxxxxxxxxxxxxxxxxxxxxxxxxxxxxxxxxxx
 
+    @staticmethod
+    def _as_array_of_matrices(matrices: Sequence[np.ndarray]) -> np.ndarray:
+        """
+        Get a 1D numpy array (of objects) with the matrices in `matrices`,
+        which can be a list, a tuple or a numpy array of matrices.
+
+        A plain list of matrices would be turned by numpy into a 3D array
+        (or an error) in operations such as ``F * np.sqrt(P)``.
+        """
+        out = np.empty(len(matrices), dtype=np.ndarray)
+        for k, matrix in enumerate(matrices):
+            out[k] = matrix
+        return out
+
     def _clear_receive_filter(self) -> None:
         """
         Clear the receive filter.
@@ -239,6 +253,8 @@ class IASolverBaseClass:  # pylint: disable=R0902
         if P is not None:
             self._P = P
 
+        if full_F is not None:
+            full_F = self._as_array_of_matrices(full_F)
         self._full_F = full_F
 
         if F is None:
@@ -248,7 +264,7 @@ class IASolverBaseClass:  # pylint: disable=R0902
             for k in range(K):
                 self._F[k] = full_F[k] / np.linalg.norm(full_F[k], 'fro')
         else:
-            self._F = F
+            self._F = self._as_array_of_matrices(F)
 
         # Update the number of streams
         self._Ns = np.empty(self.K, dtype=int)
@@ -379,8 +395,9 @@ class IASolverBaseClass:  # pylint: disable=R0902
             raise RuntimeError("Either 'W' or 'W_H' must be provided ("
                                "but not both of them.")
 
-        self._W = W
-        self._W_H = W_H
+        self._W = None if W is None else self._as_array_of_matrices(W)
+        self._W_H = (None if W_H is None else
+                     self._as_array_of_matrices(W_H))
 
     def _calc_equivalent_channel(self, k: int) -> np.ndarray:
         """
